@@ -409,9 +409,88 @@ def _run_vec2(case):
     return {"violations": v, "fingerprint": fp("vec2", et, term, want), "nontrivial": True, "outcome": "agree" if not v else "violation", "transitions": 1}
 
 
+def _normalmass_cases(tier):
+    """built-in MassAlongNormal on CURVED faces (the normal varies inside an element) against the user form coef (u.n)(v.n)"""
+    return [{"kind": "normalmass", "elemType": et, "coef": ck} for et in ("QUAD8", "QUAD9", "TRI6", "QUAD4") for ck in ("const", "elem")]
+
+
+def _cyl_patch(et):
+    """elements on a cylinder of radius 1.3 (axis z): angle x height grid, mid nodes ON the surface (curved quadratic faces; QUAD4: warped)."""
+    R_ = 1.3
+    nth, nz = 3, 2
+    th = np.linspace(0.2, 1.5, 2 * nth + 1)
+    zz = np.linspace(0.0, 1.0, 2 * nz + 1)
+    pid = {}
+    pts = []
+
+    def node(i, j, twist=0.0):
+        if (i, j) not in pid:
+            pid[(i, j)] = len(pts)
+            t = th[i] + twist * zz[j]
+            pts.append([R_ * np.cos(t), R_ * np.sin(t), zz[j]])
+        return pid[(i, j)]
+
+    con = []
+    tw = 0.35 if et == "QUAD4" else 0.0  # QUAD4: a helicoidal twist makes the bilinear faces non-planar
+    for a in range(nth):
+        for b in range(nz):
+            i0, j0 = 2 * a, 2 * b
+            c = [node(i0, j0, tw), node(i0 + 2, j0, tw), node(i0 + 2, j0 + 2, tw), node(i0, j0 + 2, tw)]
+            if et == "QUAD4":
+                con.append(c)
+                continue
+            m = [node(i0 + 1, j0), node(i0 + 2, j0 + 1), node(i0 + 1, j0 + 2), node(i0, j0 + 1)]
+            if et == "QUAD8":
+                con.append(c + m)
+            elif et == "QUAD9":
+                con.append(c + m + [node(i0 + 1, j0 + 1)])
+            else:  # two TRI6 per cell: (c0, c1, c2) and (c0, c2, c3) with the cell centre as the mid node of the diagonal
+                ctr = node(i0 + 1, j0 + 1)
+                con.append([c[0], c[1], c[2], m[0], m[1], ctr])
+                con.append([c[0], c[2], c[3], ctr, m[2], m[3]])
+    return np.array(pts, dtype=float), np.array(con, dtype=int)
+
+
+def _run_normalmass(case):
+    from EasyFEA import ElemType
+    from EasyFEA.FEM import BiLinearForm, FeArray, Field, MatrixType, Operators
+    from EasyFEA.FEM._group_elem import GroupElemFactory
+
+    et, ck = case["elemType"], case["coef"]
+    key = dict(kind="normalmass", elemType=et, coef=ck)
+    co, con = _cyl_patch(et)
+    g = GroupElemFactory.Create(ElemType[et], con, co)
+    mt = MatrixType.mass
+    coef = 1.7 if ck == "const" else np.linspace(0.8, 2.1, g.Ne)
+    n_e_pg = g.Get_normals_e_pg(mt)
+    nn = np.asarray(n_e_pg, dtype=float)
+    spread = float(np.abs(nn - nn.mean(axis=1, keepdims=True)).max())
+    op = np.asarray(Operators.Bilinear.MassAlongNormal(g, coef, mt), dtype=float)
+    cu = coef if ck == "const" else FeArray.asfearray(np.asarray(coef).reshape(-1, 1))
+    fld = Field(g, 3, mt)
+    v = []
+    try:
+        data = np.asarray(BiLinearForm(lambda u, w: cu * u.dot(n_e_pg) * w.dot(n_e_pg)).Integrate_e(fld), dtype=float)
+    except Exception as err:
+        return {"violations": [viol("form_raises", f"(u.n)(v.n) on {et}: Integrate_e raised {type(err).__name__}: {str(err)[:160]}", error=type(err).__name__, **key)],
+                "fingerprint": fp("nmraise", et, ck), "nontrivial": True, "outcome": "raises", "transitions": 1}
+    # independent reference: sum_p wJ coef (N_i n_a)(N_j n_b)
+    wJ = np.asarray(g.Get_weightedJacobian_e_pg(mt), dtype=float)
+    N = np.asarray(g.Get_N_pg(mt), dtype=float)[:, 0, :]
+    ce = np.full(g.Ne, coef) if ck == "const" else np.asarray(coef)
+    ref = np.einsum("e,ep,pi,epa,pj,epb->eiajb", ce, wJ, N, nn, N, nn).reshape(g.Ne, 3 * g.nPe, 3 * g.nPe)
+    sc = float(np.abs(ref).max())
+    for nm, arr in (("MassAlongNormal", op), ("user form (u.n)(v.n)", data)):
+        err = float(np.abs(arr - ref).max()) / sc if arr.shape == ref.shape else np.inf
+        if err > 1e-11:
+            v.append(viol("element_arrays", f"{nm} on curved {et} faces (normal varies by {spread:.2f} inside an element): differs from sum_p wJ coef (N_i n_a)(N_j n_b) "
+                                            f"by {err:.2e}", which=nm.split()[0], **key))
+    return {"violations": v, "fingerprint": fp("normalmass", et, ck, ref), "nontrivial": bool(spread > 1e-3), "outcome": "agree" if not v else "violation", "transitions": 2}
+
+
 def cases(tier, seed):
     out = (_single_cases(tier) + _pair_cases(tier) + _linear_cases(tier) + _assemble_cases(tier) + _simu_cases(tier) + _nonsym_cases(tier)
-           + _moved_cases(tier) + _vec2_cases(tier))
+           + _moved_cases(tier) + _vec2_cases(tier) + _normalmass_cases(tier))
     # ordering only (the set is unchanged): the runner hands out chunks of 8 consecutive cases; deal the cases, longest first,
     # round-robin into the chunks so that every chunk costs about the same, and put the cheap ones first inside a chunk
     out.sort(key=lambda c: -_est(c))
